@@ -65,7 +65,7 @@ def build_query(vc, depth=DEPTH, extra_assumptions=()):
     fs = list(vc.assumptions) + list(extra_assumptions) + [z3.Not(vc.goal)]
     # pattern-less lemmas are only usable through explicit ground instances (hints); giving the bare
     # quantifier to the solver would only start model-based instantiation
-    lem = [LEMMAS[n].formula for n in sorted(vc.uses) if n in LEMMAS and LEMMAS[n].patterns]
+    lem = [LEMMAS[n].formula for n in sorted(vc.uses) if n in LEMMAS and (LEMMAS[n].patterns or not LEMMAS[n].vars)]
     inst = instantiate(fs, depth)
     s = z3.Solver()
     for f in lem + fs + inst:
